@@ -898,7 +898,7 @@ func opEQ(raw json.RawMessage, o *Out) {
 	}
 	var variants []c08Variant
 	tp := []s2.Point{}
-	if c.Tgt.K != "gctr" {
+	if c.Tgt.K != "gctr" && c.Tgt.K != "gcloud" {
 		tp = c08Pts(c.Tgt.V)
 	}
 	switch c.Tgt.K {
@@ -918,6 +918,12 @@ func opEQ(raw json.RawMessage, o *Out) {
 			{"idx", false, mkIndex(cloud([]s2.Point{p})), []s2.Point{p}},
 			{"edge", false, mkEdge(p, p), []s2.Point{p}},
 		}
+	case "gcloud":
+		var ps []s2.Point
+		for _, v := range c.Tgt.V {
+			ps = append(ps, emb.FromFaceIJ(v[0], v[1], v[2], v[3]).Point())
+		}
+		variants = []c08Variant{{"idx", false, mkIndex(cloud(ps)), ps}}
 	case "edge":
 		variants = []c08Variant{
 			{"edge", true, mkEdge(tp[0], tp[1]), tp},
